@@ -224,7 +224,7 @@ func driverMain(args []string) {
 						}
 					}
 				}
-				ld = mix64(ld ^ o.LogDigest + uint64(o.Worker))
+				ld += o.LogDigest
 			}
 			digestLines = append(digestLines, fmt.Sprintf("%s seed=%d evals=%d log=%016x", ph.Name, sd, ps.Evals, ld))
 			sums = append(sums, ps)
